@@ -10,9 +10,10 @@
 (*   raw  raw bytes were injected      [hdr, body]              InjectRaw  *)
 (*   srh  the server read a header     [hdr]                SrvReadHeader  *)
 (*   sra  ... and the struct after it  [body, end]  SrvReadArgs/SkipUnknown*)
+(*                                                         / SrvArgsError  *)
 (*   h    the handler was entered      [r, seen, out]           SrvInvoke  *)
 (*   sw   the server wrote a message   [hdr, body, end]  SrvReply /        *)
-(*                                        SrvAppException / UnknownMethod  *)
+(*                     SrvAppException / UnknownMethod / SrvProtocolError  *)
 (*   pe   Process returned              []   SrvOnewayDone (or already idle) *)
 (*   ret  the client call returned     [k, none, hdr, body, end, res]      *)
 (*                                                    CliRecv (or oneway)  *)
@@ -61,7 +62,12 @@ ESra == /\ Is("sra") /\ Adv
         /\ \/ /\ SrvSkipUnknown
               /\ Ev.body = <<[t |-> "SKIP", ty |-> 12]>>
            \/ /\ SrvReadArgs
-              /\ Ev.body = DecStruct(Meth(srv'.r).args, srv.msg.toks).c
+              \* known fields are read, anything else is passed over by one Skip -- or read through token by token
+              /\ \/ Ev.body = DecStruct(Meth(srv'.r).args, srv.msg.toks).c
+                 \/ Ev.body = srv.msg.toks
+           \/ /\ SrvArgsError
+              /\ \/ Ev.body = DecStruct(Meth(srv'.r).args, srv.msg.toks).c
+                 \/ Ev.body = srv.msg.toks
 
 EH == /\ Is("h") /\ Adv
       /\ srv.st = "args"
@@ -71,13 +77,14 @@ EH == /\ Is("h") /\ Adv
 
 ESw == /\ Is("sw") /\ Adv
        /\ Ev.hdr.t = "MSG" /\ Ev.end
-       /\ srv.st \in {"unk", "done"}
+       /\ srv.st \in {"unk", "done", "argerr"}
        /\ Ev.hdr.name = srv.msg.name /\ Ev.hdr.seq = srv.msg.seq
        /\ \/ Ev.hdr.mt = REPLY /\ SrvReply(Ev.body)
-          \/ Ev.hdr.mt = EXCEPTION /\ (SrvAppException(Ev.body) \/ SrvUnknownMethod(Ev.body))
+          \/ Ev.hdr.mt = EXCEPTION /\ (SrvAppException(Ev.body) \/ SrvUnknownMethod(Ev.body) \/ SrvProtocolError(Ev.body))
 
 EPe == /\ Is("pe") /\ Adv
        /\ IF srv.st = "done" /\ Meth(srv.r).oneway THEN SrvOnewayDone
+          ELSE IF srv.st = "argerr" /\ Meth(srv.r).oneway THEN SrvArgsErrorSilent
           ELSE srv = Idle /\ UNCHANGED vars
 
 ResMatches(c, obs, exp) ==
@@ -86,6 +93,7 @@ ResMatches(c, obs, exp) ==
     [] exp.k = "exc" -> /\ obs.k = "exc" /\ obs.i = exp.i
                         /\ LET t == STy(Meth(c.r).throws[exp.i].s) IN CAbs(t, obs.v) = CAbs(t, exp.v)
     [] exp.k = "app" -> obs.k = "app" /\ "i32:" \o ToString(obs.ty) = exp.ty
+    [] exp.k = "rawreply" -> obs.k = "rawreply"
     [] OTHER -> FALSE
 
 ERet == /\ Is("ret") /\ Adv
